@@ -133,7 +133,6 @@ class SeqSuite(Suite):
         given = 0            # number of items handed to pops so far
         pop_state = {}       # pop id -> 'pending' | outcome
         got = {}             # pop id -> value received
-        alive = True
         finished = False
 
         def pending():
@@ -170,7 +169,6 @@ class SeqSuite(Suite):
             n_items = len(pushed) - given
             completions = [(i, o) for i, o in evs if o is not None]
             if w[0] in ("destroy", "end"):
-                alive = False
                 finished = True
                 want = [(i, "canceled") for i in pend]
                 if sorted(completions) != want:
